@@ -165,20 +165,26 @@ Definition enc_time (secs : Z) : bytes :=
 
 Definition is_digit (x : Z) : bool := (48 <=? x) && (x <=? 57).
 
+Definition num2 (a b : Z) : Z := (a - 48) * 10 + (b - 48).
+Definition num4 (a b c d : Z) : Z := (a - 48) * 1000 + (b - 48) * 100 + (c - 48) * 10 + (d - 48).
+
+Definition date_ok (y m d h n s : Z) : bool :=
+  (1 <=? y) && (1 <=? m) && (m <=? 12) && (1 <=? d) && (d <=? days_in_month y m)
+  && (h <? 24) && (n <? 60) && (s <? 60).
+
+Definition time_of_fields (y m d h n s : Z) : Z := days_of_civil y m d * 86400 + h * 3600 + n * 60 + s.
+
 Definition dec_time (b : bytes) : option Z :=
   match b with
   | [y1; y2; y3; y4; m1; m2; d1; d2; h1; h2; n1; n2; s1; s2; zz] =>
     if forallb is_digit [y1; y2; y3; y4; m1; m2; d1; d2; h1; h2; n1; n2; s1; s2] && (zz =? 90) then
-      let y := (y1 - 48) * 1000 + (y2 - 48) * 100 + (y3 - 48) * 10 + (y4 - 48) in
-      let m := (m1 - 48) * 10 + (m2 - 48) in
-      let d := (d1 - 48) * 10 + (d2 - 48) in
-      let h := (h1 - 48) * 10 + (h2 - 48) in
-      let n := (n1 - 48) * 10 + (n2 - 48) in
-      let s := (s1 - 48) * 10 + (s2 - 48) in
-      if (1 <=? y) && (1 <=? m) && (m <=? 12) && (1 <=? d) && (d <=? days_in_month y m)
-         && (h <? 24) && (n <? 60) && (s <? 60)
-      then Some (days_of_civil y m d * 86400 + h * 3600 + n * 60 + s)
-      else None
+      let y := num4 y1 y2 y3 y4 in
+      let m := num2 m1 m2 in
+      let d := num2 d1 d2 in
+      let h := num2 h1 h2 in
+      let n := num2 n1 n2 in
+      let s := num2 s1 s2 in
+      if date_ok y m d h n s then Some (time_of_fields y m d h n s) else None
     else None
   | _ => None
   end.
